@@ -123,4 +123,11 @@ func init() {
 			"(2) envelope writer and reader agree on the prefix layout (byte order, length bytes, flag byte, 5-byte size) and the length written is that of the buffer copied next; the full declared payload is read whatever the segmentation; (3) pooled buffers do not escape past their Put and are Reset before reuse; "+
 			"(4) a message is compressed exactly when a pool exists and its size reaches the threshold, the compressed flag is set only then, and both sides select (de)compressors from the negotiated header values; (5) no *Error that may be nil is converted to a non-nil error on a success path.",
 		"codec and compressor losslessness, ordering and exactly-once delivery (they follow from a single sequential reader per direction, not checked), behaviour of net/http, the size classes around 512 B / 8 MiB as such.")
+
+	prop("C17", "Generated code is valid Go that routes every RPC at its canonical path",
+		[]string{"gen-path-single-source", "gen-keyword-ident", "gen-kind-switch", "gen-deterministic", "gen-checked-in-agrees"},
+		"(1) the generator prints the mux pattern, the handler's procedure and the client URL from one function that builds \"/\"+service FullName()+\"/\"+method Name() (so files without a package and non-CamelCase rpc names get the canonical path), and the mount prefix / name constant from FullName(); "+
+			"(2) lower-cased field names pass a Go-keyword test and keywords get an underscore prefix; (3) every choice by streaming kind emits, in each of the four kinds, only constant identifiers of that kind; (4) no map iteration or time/rand input, no output for files without services; "+
+			"(5) the checked-in ping.connect.go agrees, method by method, with the descriptor embedded in the checked-in ping.pb.go (paths, constructors, Call* methods, mount prefix, name constant, no missing or extra method) and type-checks.",
+		"that the output is valid, type-correct Go for all descriptors (needs running generator and compiler), byte equality of the checked-in output with a fresh generator run, comments/deprecation/go_package forms.")
 }
